@@ -589,5 +589,5 @@ package litefs
 // receives entries at commit frames.
 //@ func (db *DB) readWALPageOffsets [C17,C05,C03]
 //@   requires  dbWF(db) && f != nil
-//@   loop 1 invariant walReaderReady(r)
+//@   loop 1 invariant walReaderReady(r) && txOffsets != nil && offsets != nil
 //@   nopanic
